@@ -220,8 +220,18 @@ fn tame(tape: &mut [Fault]) {
     let budget = tape.len() / 4;
     let mut drops = 0;
     let mut run = 0;
-    for f in tape.iter_mut() {
+    for (i, f) in tape.iter_mut().enumerate() {
         if matches!(f, Fault::Drop) {
+            // losses only among the first 16 datagrams of a direction: every lost retransmission of one message doubles
+            // the sender's probe timeout, and with the RTT estimates the two stacks reach after a lossy start (tens of
+            // seconds, see cases/handshake-finished-lost-five-times.json) the fifth transmission of a handshake message
+            // would be due after every idle timeout in use: a finite tape that happens to hit each retransmission turns
+            // into an idle timeout that is nobody's defect. Later entries reorder (delay) instead of dropping.
+            if i >= 16 {
+                *f = Fault::Delay(3);
+                run = 0;
+                continue;
+            }
             if run >= 2 || drops >= budget {
                 *f = Fault::Pass;
                 run = 0;
